@@ -143,6 +143,7 @@ class Intervals:
         self.ptr_keys = set(ptr_keys or ())      # char pointers modelled as byte offsets from a common base
         self.zero_keys = set()                   # keys known to be the constant 0 throughout (the base pointer itself)
         self.rel_calls = {}                      # callee -> (arg index, c): result <= that argument + c
+        self.span_calls = {}                     # callee -> (pointer arg, length arg): non-null result in [p, p + n - 1]
         self.bounded_calls = bounded_calls or {} # callee -> index of its size argument (result <= that argument)
         self.entry = entry or {}          # var key -> interval at function entry
         self.call_ranges = call_ranges or {}   # callee name -> interval of its result
@@ -268,6 +269,16 @@ class Intervals:
                 r = add(a, b)
             elif op == "-":
                 r = sub(a, b)
+                # difference bounds sharpen x - y:  x <= y + c  ->  x - y <= c ;  y <= x + c'  ->  x - y >= -c'
+                la, lb = self._linear(n["c"][0]), self._linear(n["c"][1])
+                if la is not None and lb is not None and la[0] is not None and lb[0] is not None:
+                    c1 = self.rel(st, la[0], lb[0])
+                    c2 = self.rel(st, lb[0], la[0])
+                    d = la[1] - lb[1]
+                    if c1 is not None:
+                        r = (r[0], c1 + d if r[1] is None else min(r[1], c1 + d))
+                    if c2 is not None:
+                        r = (-c2 + d if r[0] is None else max(r[0], -c2 + d), r[1])
             elif op == "*":
                 r = mul(a, b)
             elif op == "/":
@@ -315,6 +326,67 @@ class Intervals:
     def _kill_rels(self, st, key):
         for kk in [z for z in st if isinstance(z, tuple) and len(z) == 3 and z[0] == "rel" and (z[1] == key or z[2] == key)]:
             del st[kk]
+        for kk in [z for z in st if isinstance(z, tuple) and len(z) == 2 and z[0] == "diff" and (z[1] == key or key in st[z][:2])]:
+            del st[kk]
+
+    @staticmethod
+    def _is_rel(kk):
+        return isinstance(kk, tuple) and len(kk) == 3 and kk[0] == "rel"
+
+    @staticmethod
+    def _is_diff(kk):
+        return isinstance(kk, tuple) and len(kk) == 2 and kk[0] == "diff"
+
+    def _merge(self, a, b):
+        """plain join of two states (no widening, no completion): intervals joined, difference bounds maxed, exact
+        difference facts kept when equal"""
+        out = {}
+        for kk in set(a) & set(b):
+            if self._is_rel(kk):
+                out[kk] = max(a[kk], b[kk])
+            elif self._is_diff(kk):
+                if a[kk] == b[kk]:
+                    out[kk] = a[kk]
+            else:
+                out[kk] = join(a[kk], b[kk])
+        return out
+
+    def _note_diff(self, st, k, rhs, val, t):
+        """k = (x + a) - (y + b) without wrapping: remember k == x - y + (a - b) while none of the three is assigned"""
+        r0 = strip_casts(strip(rhs)) if rhs is not None else None
+        while r0 is not None and r0.get("k") == "ParenExpr":
+            r0 = strip_casts(strip(r0["c"][0]))
+        if r0 is None or r0.get("k") != "BinaryOperator" or r0.get("op") != "-":
+            return
+        la, lb = self._linear(r0["c"][0]), self._linear(r0["c"][1])
+        if la is None or lb is None or la[0] is None or lb[0] is None or k in (la[0], lb[0]):
+            return
+        tr = type_range(t) if t is not None and t.get("int") else (None, None)
+        if tr != (None, None) and not (val[0] is not None and val[1] is not None and tr[0] <= val[0] and val[1] <= tr[1]):
+            return
+        st[("diff", k)] = (la[0], lb[0], la[1] - lb[1])
+
+    def _span_result(self, st, k, rhs):
+        """k = memchr(p, c, n)-like: a non-null result lies in [p, p + n - 1]"""
+        r0 = strip(rhs) if rhs is not None else None
+        if r0 is None or r0.get("k") != "CallExpr" or r0.get("callee") not in self.span_calls:
+            return None
+        pi, ni = self.span_calls[r0["callee"]]
+        args = call_args(r0)
+        if max(pi, ni) >= len(args):
+            return None
+        pr, nr = self.eval(args[pi], st), self.eval(args[ni], st)
+        val = (pr[0], None if pr[1] is None or nr[1] is None else pr[1] + nr[1] - 1)
+        lp = self._linear(args[pi])
+        rels = []
+        if lp is not None and lp[0] is not None and lp[0] != k:
+            rels.append((lp[0], k, -lp[1]))             # p + a <= k  ->  p <= k - a
+            kn = self.key_of(strip_casts(args[ni]))
+            df = st.get(("diff", kn)) if kn is not None else None
+            if df is not None and df[1] == lp[0] and df[0] != k:
+                # n == A - p + c:  k <= p + a + n - 1 = A + a + c - 1
+                rels.append((k, df[0], lp[1] + df[2] - 1))
+        return val, rels
 
     def rel(self, st, kx, ky):
         """smallest derivable c with x <= y + c, or None: shortest path over the stored difference constraints,
@@ -400,6 +472,48 @@ class Intervals:
                     return (b[0], a[1] + b[1])
         return None
 
+    def _callee_writes(self, name, argidx, depth=0):
+        """member paths a callee with a known body may assign through its pointer parameter #argidx (flow-insensitive,
+        transitive); None if unknown (external function)"""
+        key = (name, argidx)
+        cache = Intervals._writes_cache.setdefault(id(self.tu), {})
+        if key in cache:
+            return cache[key]
+        f = self.tu.functions.get(name)
+        if f is None or depth > 4:
+            return None
+        cache[key] = set()
+        if argidx >= len(f.params):
+            return None
+        pd = f.params[argidx]["d"]
+        out = set()
+        unknown = False
+        for x in f.walk():
+            k = x.get("k")
+            tgt = None
+            if k == "BinaryOperator" and x.get("op") == "=" or k == "CompoundAssignOperator":
+                tgt = x["c"][0]
+            elif k == "UnaryOperator" and x.get("op") in ("++", "--"):
+                tgt = x["c"][0]
+            if tgt is not None:
+                b, path = member_path(tgt)
+                if b is not None and b.get("k") == "DeclRefExpr" and b.get("d") == pd and path:
+                    out.add(".".join(p for p in path if p != "[]"))
+            if k == "CallExpr":
+                for i, a in enumerate(call_args(x)):
+                    y = strip(a)
+                    if y is not None and y.get("k") == "DeclRefExpr" and y.get("d") == pd:
+                        sub = self._callee_writes(x.get("callee"), i, depth + 1) if x.get("callee") else None
+                        if sub is None:
+                            unknown = True
+                        else:
+                            out |= sub
+        res = None if unknown else out
+        cache[key] = res
+        return res
+
+    _writes_cache = {}
+
     def _null_test(self, n):
         """pointer compared with the null constant: pointers are modelled as offsets, NULL is not offset 0"""
         for x, y in ((n["c"][0], n["c"][1]), (n["c"][1], n["c"][0])):
@@ -446,6 +560,14 @@ class Intervals:
                                 st[z] = c0 + lin[1]
                             else:
                                 st[z] = c0 - lin[1]
+            if rhs is not None:
+                lt = strip_casts(lhs)
+                self._note_diff(st, k, rhs, val, self.tu.types[lt["t"]] if lt is not None and lt.get("t") is not None else None)
+                sp = self._span_result(st, k, rhs)
+                if sp is not None:
+                    val = sp[0]
+                    for x_, y_, c_ in sp[1]:
+                        self._set_rel(st, x_, y_, c_)
         l0 = lhs
         while l0 is not None and l0.get("k") in CASTS and l0.get("c"):
             l0 = l0["c"][0]
@@ -489,8 +611,7 @@ class Intervals:
             if outs:
                 res = outs[0]
                 for o in outs[1:]:
-                    res = {kk: (max(res[kk], o[kk]) if (isinstance(kk, tuple) and len(kk) == 3 and kk[0] == "rel") else join(res[kk], o[kk]))
-                           for kk in set(res) & set(o)}
+                    res = self._merge(res, o)
                 st.clear()
                 st.update(res)
         elif k == "BinaryOperator" and n.get("op") == "=":
@@ -549,7 +670,13 @@ class Intervals:
                             m = meet(val, tr)
                             val = tr if (m == "bot" or not t.get("sg")) else m
                         self._kill_rels(st, v["d"])
+                        sp = self._span_result(st, v["d"], kids(v)[0])
+                        if sp is not None:
+                            val = sp[0]
+                            for x_, y_, c_ in sp[1]:
+                                self._set_rel(st, x_, y_, c_)
                         st[v["d"]] = val
+                        self._note_diff(st, v["d"], kids(v)[0], val, t)
                         lin = self._linear(kids(v)[0])
                         if lin is not None and lin[0] is not None:
                             self._set_rel(st, v["d"], lin[0], lin[1])
@@ -584,9 +711,13 @@ class Intervals:
                         for kk in [z for z in st if isinstance(z, tuple) and z[0] == y["d"]]:
                             del st[kk]
                 elif x is not None and x.get("k") == "DeclRefExpr" and self.tu.types[x["t"]].get("ptr"):
-                    # pointer to record passed on: its members may change
-                    for kk in [z for z in st if isinstance(z, tuple) and z[0] == x["d"]]:
-                        del st[kk]
+                    # pointer to record passed on: its members may change -- only those the callee (transitively) assigns
+                    # when its body is known
+                    wr = self._callee_writes(n.get("callee"), call_args(n).index(a)) if n.get("callee") else None
+                    for kk in [z for z in st if isinstance(z, tuple) and len(z) == 2 and z[0] == x["d"]]:
+                        if wr is None or any(kk[1] == w or kk[1].startswith(w + ".") or w.startswith(kk[1] + ".") for w in wr):
+                            del st[kk]
+                            self._kill_rels(st, kk)
 
     # ---- refinement
     def refine(self, cond, pol, st):
@@ -598,6 +729,8 @@ class Intervals:
         if c is None:
             return st
         k = c.get("k")
+        if k == "CallExpr" and c.get("callee") == "__builtin_expect":
+            return self.refine(call_args(c)[0], pol, st)
         if k == "BinaryOperator" and c.get("op") == ",":
             return self.refine(c["c"][1], pol, st)
         if k == "BinaryOperator" and c.get("op") in ("&&", "||"):
@@ -611,13 +744,7 @@ class Intervals:
                 return b
             if b is None:
                 return a
-            out = {}
-            for kk in set(a) & set(b):
-                if isinstance(kk, tuple) and len(kk) == 3 and kk[0] == "rel":
-                    out[kk] = max(a[kk], b[kk])
-                else:
-                    out[kk] = join(a[kk], b[kk])
-            return out
+            return self._merge(a, b)
         if k == "BinaryOperator" and c.get("op") in ("==", "!=", "<", ">", "<=", ">=") and self._null_test(c):
             return st
         if k == "BinaryOperator" and c.get("op") in ("==", "!=", "<", ">", "<=", ">="):
@@ -635,11 +762,35 @@ class Intervals:
                 return None
             st = dict(st)
             ka, kb = self.key_of(strip_casts(l)), self.key_of(strip_casts(r))
+            la, lb = self._linear(l), self._linear(r)
+            # ++x / --x in a comparison: its value is the (already updated) x
+            if ka is None and la is not None and la[1] == 0 and la[0] not in self.zero_keys:
+                ka = la[0]
+            if kb is None and lb is not None and lb[1] == 0 and lb[0] not in self.zero_keys:
+                kb = lb[0]
             if ka is not None:
                 st[ka] = na
             if kb is not None:
                 st[kb] = nb
-            la, lb = self._linear(l), self._linear(r)
+            # (x + a) op c  with x + a not wrapping in the type of the comparison: refine x against c - a
+            for lx, lc, flip in ((la, lb, False), (lb, la, True)):
+                if lx is not None and lc is not None and lx[0] is not None and lx[1] != 0 and lc[0] is None and lx[0] not in self.zero_keys:
+                    side = l if not flip else r
+                    xr = st.get(lx[0])
+                    if xr is not None and lx[0] in self.ptr_keys:
+                        # an offset into an object: bounded by PTRDIFF_MAX
+                        xr = (xr[0], (1 << 62) if xr[1] is None else xr[1])
+                    t = self.tu.types[strip(side)["t"]] if strip(side) is not None and strip(side).get("t") is not None else None
+                    tr = type_range(t)
+                    if xr is None or xr[0] is None or xr[1] is None or tr == (None, None):
+                        continue
+                    if not (tr[0] <= xr[0] + lx[1] and xr[1] + lx[1] <= tr[1]):
+                        continue
+                    o2 = op if not flip else {"<": ">", ">": "<", "<=": ">=", ">=": "<=", "==": "==", "!=": "!="}[op]
+                    nx, _ = self._apply_rel(o2, st.get(lx[0]), (lc[1] - lx[1], lc[1] - lx[1]))
+                    if nx == "bot":
+                        return None
+                    st[lx[0]] = nx
             if la is not None and lb is not None and la[0] is not None and lb[0] is not None:
                 # (x + a) op (y + b)
                 d = lb[1] - la[1]
@@ -733,6 +884,10 @@ class Intervals:
                     j = cand[0]
                 new[kk] = j
                 continue
+            if self._is_diff(kk):
+                if a[kk] == b[kk]:
+                    new[kk] = a[kk]
+                continue
             j = join(a[kk], b[kk])
             if widen_it and j != a[kk]:
                 j = widen(a[kk], j, self.thresholds)
@@ -746,6 +901,10 @@ class Intervals:
             if isinstance(kk, tuple) and len(kk) == 3 and kk[0] == "rel":
                 va = self.rel(a, kk[1], kk[2])
                 if va is None or va > vb:
+                    return False
+                continue
+            if self._is_diff(kk):
+                if a.get(kk) != vb:
                     return False
                 continue
             va = a.get(kk)
@@ -798,6 +957,21 @@ class Intervals:
         self.discriminators = [k for k, _ in sorted(cand.items(), key=lambda kv: -kv[1])[:2]]
         instate = {cfg.entry: {self._signature(self.entry): dict(self.entry)}}
         visits = {}
+        # widening points: targets of DFS back edges (every cycle passes through one); elsewhere states are only joined
+        wpoints, color, stack = set(), {}, [(cfg.entry, iter(cfg.succs.get(cfg.entry, ())))]
+        color[cfg.entry] = 1
+        while stack:
+            u, it = stack[-1]
+            for v in it:
+                if color.get(v) == 1:
+                    wpoints.add(v)
+                elif v not in color:
+                    color[v] = 1
+                    stack.append((v, iter(cfg.succs.get(v, ()))))
+                    break
+            else:
+                color[u] = 2
+                stack.pop()
         work = [(cfg.entry, self._signature(self.entry))]
         rounds = 0
         while work:
@@ -819,7 +993,7 @@ class Intervals:
                 if self._leq(ns, old):
                     continue
                 visits[(s, sg)] = visits.get((s, sg), 0) + 1
-                merged = self._join_states(old, ns, widen_it=visits[(s, sg)] > WIDEN_AFTER)
+                merged = self._join_states(old, ns, widen_it=s in wpoints and visits[(s, sg)] > WIDEN_AFTER)
                 if merged != old:
                     part[sg] = merged
                     work.append((s, sg))
